@@ -45,6 +45,7 @@ class Ctx:
     def __init__(self):
         self.mode = "native"  # native | sym | interp
         self.timeout_ms = 20000
+        self.branch_timeout_ms = 3000
         self.reset_all()
 
     # ------------------------------------------------------------------ lifecycle
@@ -56,6 +57,7 @@ class Ctx:
         self.paths_completed = 0
         self.native_inputs = {}
         self.native_log = []
+        self.outcomes = []
         self.watches = {}
         self.contracts = {}
         self.overrides = {}
@@ -90,7 +92,11 @@ class Ctx:
 
     # ------------------------------------------------------------------ branching
     def _feasible(self, c):
+        # short budget: `unknown` counts as feasible (sound: an infeasible path only adds
+        # vacuously true obligations)
+        self.solver.set("timeout", self.branch_timeout_ms)
         r = self.solver.check(c)
+        self.solver.set("timeout", self.timeout_ms)
         return r != z3.unsat
 
     def assume(self, cond):
